@@ -44,6 +44,57 @@ def gen(tier, seed):
     return cases
 
 
+def gen_matrix(tier, seed):
+    """Every combination of listener states on one channel x every short sequence of event kinds:
+    an event for a listener that is absent or gone must be discarded without disturbing the others."""
+    import itertools
+    rng = Rng(seed + 1313)
+    cases = []
+    L = 3 if tier == "quick" else 4
+    states_rc = ["none", "live", "dropped", "replaced"]
+    n = 0
+    for rs in states_rc:
+        for cs in states_rc:
+            for bs in ["none", "live", "dropped"]:
+                for seq in itertools.product(["ret", "conf", "blk"], repeat=L):
+                    g = mg.Gen(rng, chmax=2, bound=4, via_stream=0.0)
+                    h = g.open_channel(1); g.bind_opened(h, 1)
+                    live = []
+
+                    def setup(kind, st):
+                        if st == "none":
+                            return
+                        op = {"ret": "send %s setret %%s" % h, "conf": "send %s setconf %%s" % h, "blk": "setblocked %s"}[kind]
+                        ev = "ev blocked" if kind == "blk" else "ev 1"
+                        l = g.new_listener()
+                        g.op(op % l); g.op(ev)
+                        if st == "dropped":
+                            g.op("drop-lst " + l)
+                        elif st == "replaced":
+                            l2 = g.new_listener()
+                            g.op(op % l2); g.op(ev)
+                            live.append(l); live.append(l2)
+                        else:
+                            live.append(l)
+                    setup("ret", rs); setup("conf", cs); setup("blk", bs)
+                    tag = 0
+                    for e in seq:
+                        if e == "ret":
+                            frs, _ = g.content(1, mg.ret(1, 312, "NO_ROUTE", "ex", "rk"), size=3)
+                            g.feed(frs)
+                        elif e == "conf":
+                            tag += 1
+                            g.feed([mg.ack(1, tag, False) if tag % 2 else mg.nack(1, tag, True)])
+                        else:
+                            g.feed([mg.blocked("mem") if tag % 2 == 0 else mg.unblocked()])
+                    g.finish()
+                    n += 1
+                    cases.append(g.case("m%d" % n))
+    return cases
+
+
 def suites(tier, seed):
-    return [Suite("sessions", "machine", lambda: gen(tier, seed), monitor=monitor, nontrivial=nontrivial, canon=mg.canon_nondet, candidate_ok=mg.candidate_ok,
+    return [Suite("listener-matrix", "machine", lambda: gen_matrix(tier, seed), monitor=monitor, nontrivial=lambda c, il: True, canon=mg.canon_nondet, candidate_ok=mg.candidate_ok, exhaustive=True, shards=4,
+                  rule="one channel; return listener x confirm listener in {never set, live, receiver dropped, replaced} x blocked listener in {never set, live, dropped} x EVERY sequence of 3 (thorough: 4) events from {returned message, ack/nack, blocked/unblocked}; all listener queues read to their end"),
+            Suite("sessions", "machine", lambda: gen(tier, seed), monitor=monitor, nontrivial=nontrivial, canon=mg.canon_nondet, candidate_ok=mg.candidate_ok,
                   rule="random sessions biased to acks/nacks (tags up to 2^64-1, multiple flag), returned messages and blocked/unblocked notices, with listeners registered, replaced and dropped at random points, with and without a listener")]
